@@ -93,6 +93,7 @@ template<typename T> static Bytes canon_fi(const Bytes& b) {
 
 template<typename T>
 static void case_fi(Rng& r) {
+  describe(std::string(FiItem<T>::name()) + " (generating state)");
   typedef typename FiItem<T>::S S;
   typedef typename FiItem<T>::SerDe SD;
   const std::string fam = FiItem<T>::name();
@@ -172,6 +173,7 @@ static std::string observe_cm(const count_min_sketch<W>& s, uint64_t dom) {
 
 template<typename W>
 static void case_cm(Rng& r) {
+  describe(std::string(CmName<W>::name()) + " (generating state)");
   typedef count_min_sketch<W> S;
   const std::string fam = CmName<W>::name();
   const uint8_t nh = static_cast<uint8_t>(r.range(1, 6));
@@ -255,6 +257,7 @@ static void bloom_cont(bloom_filter& f, uint64_t dom, Rng& cr) {
 }
 
 static void case_bloom(Rng& r) {
+  describe("bloom (generating state)");
   const uint64_t num_bits = r.chance(0.3) ? static_cast<uint64_t>(r.range(1, 130)) : static_cast<uint64_t>(r.range(1, G().thorough() ? 6000 : 1500));
   const uint16_t nh = static_cast<uint16_t>(r.range(1, 9));
   const uint64_t seed = r.next();
